@@ -10,10 +10,12 @@ from . import layout, vft, inherit, impl, enums, scope
 GROUPS = {
     "quick": [("MC_Inherit", inherit.CFG, "inherit"), ("MC_Impl", impl.CFG, "impl"), ("MC_Vft", vft.CFG, "vft"),
               ("MC_Enum", enums.CFG, "enum"), ("MC_Scope", {"quick": ["MC_Scope_q2.cfg"]}, "scope"),
-              ("MC_Layout", {"quick": ["MC_Layout_q2.cfg", "MC_Layout_q5.cfg"]}, "layout")],
+              ("MC_Layout", {"quick": ["MC_Layout_q2.cfg", "MC_Layout_q5.cfg"]}, "layout"),
+              ("MC_Names", {"quick": ["MC_Names_q1.cfg"]}, "names")],
     "thorough": [("MC_Inherit", inherit.CFG, "inherit"), ("MC_Impl", impl.CFG, "impl"), ("MC_Vft", vft.CFG, "vft"),
                  ("MC_Enum", enums.CFG, "enum"), ("MC_Scope", scope.CFG, "scope"),
-                 ("MC_Layout", {"thorough": layout.CFG["thorough"] + ["MC_Layout_q5.cfg"]}, "layout")],
+                 ("MC_Layout", {"thorough": layout.CFG["thorough"] + ["MC_Layout_q5.cfg"]}, "layout"),
+                 ("MC_Names", {"quick": ["MC_Names_q1.cfg"]}, "names")],
 }
 
 
